@@ -59,6 +59,7 @@ type c11In struct {
 	nestedAnswerPhase int // phase in which the answer of the nested operation was handed over (0 = not yet)
 	nestedAt          time.Duration
 	inHandler         bool
+	nonNested         bool // the nested request is sent non-confirmable (datagram transports)
 	dupSent           bool
 }
 
@@ -127,7 +128,18 @@ func c11Run(e *Env) {
 		case hFast:
 		case hGet:
 			var resp *pool.Message
-			resp, err = cc.Get(ctx, "/nested", QueryOpt(1000+n))
+			if in.nonNested {
+				// a non-confirmable nested request: nothing waits for an acknowledgement, only for the response
+				req := cc.AcquireMessage(ctx)
+				tok, _ := w.API.GetToken()
+				if err = req.SetupGet("/nested", tok, QueryOpt(1000+n)); err == nil {
+					req.SetType(message.NonConfirmable)
+					resp, err = cc.Do(req)
+				}
+				cc.ReleaseMessage(req)
+			} else {
+				resp, err = cc.Get(ctx, "/nested", QueryOpt(1000+n))
+			}
 			if resp != nil {
 				cc.ReleaseMessage(resp)
 			}
@@ -374,6 +386,10 @@ func c11Run(e *Env) {
 				in := &c11In{nonce: n}
 				if !onlyFast {
 					in.kind = t.Weighted(3, 3, 1, 1, 1, 1)
+				}
+				if in.kind == hGet && IsDatagram(tr) && t.Chance(1, 3) {
+					in.nonNested = true
+					e.Probe("nested.nonConfirmableRequest")
 				}
 				typ := TCON
 				if IsDatagram(tr) && t.Chance(1, 3) {
